@@ -134,7 +134,7 @@ class Session(object):
         if w in ('p', 'previous'):
             if len(self.hist) > 1:
                 self.hist.pop()
-                return [('back',)]
+                return [('log',)]
             return [('error',)]
         if w in ('r', 'run'):
             chunks = []
@@ -154,7 +154,7 @@ class Session(object):
             return [('state', m.snapshot())]
         if w in ('b', 'break'):
             if len(words) < 2:
-                return [('bplist',)] + [('cmd', i, self.prog[i].line, self.prog[i].col, ''.join(self.prog[i].raw))
+                return [('log',)] + [('cmd', i, self.prog[i].line, self.prog[i].col, ''.join(self.prog[i].raw))
                                         for i in sorted(self.bps)]
             try:
                 if not re.match(r'^\+?[0-9]+$', words[1]):
@@ -168,11 +168,11 @@ class Session(object):
                 return [('range', k)]
             if k in self.bps:
                 self.bps.discard(k)
-                return [('unset', k)]
+                return [('log',)]
             self.bps.add(k)
-            return [('set', k)]
+            return [('log',)]
         if w in ('h', 'help'):
-            return [('helpline',)] * 8
+            return [('help',)]
         if w == 'exit':
             self.ended = 0
             return []
@@ -217,8 +217,8 @@ def parse_transcript(text):
             pending_state[1].append((int(head[6:]), tuple(inner.split(', ')) if inner else ()))
             continue
         close_state()
-        if line.startswith('==> running in debug mode') or line.startswith('==> parsing '):
-            continue
+        if len(replies) == 1 and not line.startswith('[stdout] ') and not line.startswith('[stderr] '):
+            continue          # banner / log lines before the first prompt: wording not prescribed
         if line.startswith('current stack: '):
             pending_state = (int(line[len('current stack: '):]), [])
             continue
@@ -229,20 +229,12 @@ def parse_transcript(text):
             replies[-1].append(('out', line[9:]))
         elif line.startswith('[stderr] '):
             replies[-1].append(('err', line[9:]))
-        elif line == '==> moved back':
-            replies[-1].append(('back',))
-        elif line.startswith('==> set breakpoint on line '):
-            replies[-1].append(('set', int(line.rsplit(' ', 1)[1])))
-        elif line.startswith('==> unset breakpoint on line '):
-            replies[-1].append(('unset', int(line.rsplit(' ', 1)[1])))
-        elif line == '==> printing breakpoints':
-            replies[-1].append(('bplist',))
+        elif line.startswith('==> '):
+            replies[-1].append(('log',))
         elif line.startswith('[error] '):
             replies[-1].append(('error',))
-        elif line.startswith(HELP_PREFIXES):
-            replies[-1].append(('helpline',))
         else:
-            replies[-1].append(('unknown', line))
+            replies[-1].append(('text',))
     close_state()
     return replies
 
@@ -294,14 +286,18 @@ def check_session(prog, script, status, stdout, stderr):
             kk = exp[0][1]
             if got == [('error',)]:
                 continue
-            if got == [('set', kk)] and kk not in s.ghost:
-                s.ghost.add(kk)
+            if got == [('log',)]:
+                if kk in s.ghost:
+                    s.ghost.discard(kk)
+                else:
+                    s.ghost.add(kk)
                 continue
-            if got == [('unset', kk)] and kk in s.ghost:
-                s.ghost.discard(kk)
+            return ('debug:break-range', "error reply or an acknowledgement for %d" % kk, str(got))
+        if exp == [('help',)]:
+            if got and all(g == ('text',) for g in got):
                 continue
-            return ('debug:break-range', "error reply or (un)set %d" % kk, str(got))
-        if exp and exp[0][0] == 'bplist' and s.ghost:
+            return ('debug:reply:help', 'one or more lines of help text', str(got))
+        if exp and exp[0] == ('log',) and len(exp) > 1 and s.ghost:
             got = [g for g in got if not (g[0] == 'cmd' and g[1] in s.ghost)]
         if not events_match(exp, got):
             return ('debug:reply:' + (line.split(' ')[0] or 'blank'), 'after %r: %s' % (script[:k], exp), str(got))
